@@ -90,7 +90,7 @@ func getTokenIDAndSubject(ctx context.Context, userinfoProvider UserinfoProvider
 
 	tokenIDSubject, err := userinfoProvider.Crypto().Decrypt(accessToken)
 	if err == nil {
-		splitToken := strings.Split(tokenIDSubject, ":")
+		splitToken := strings.SplitN(tokenIDSubject, ":", 2)
 		if len(splitToken) != 2 {
 			return "", "", false
 		}
